@@ -35,9 +35,18 @@ THEOREMS = [
     "C04_streamline_algebraic",
     "C04_streamline_invariant",
     "C04_streamline_constant",
+    "C04_attenuation_exponent_is_trapezoid_sum",
+    "C04_line_density_at_nodes",
+    "C04_stopping_order_independent",
+    "C04_nodes_span_beam_within_step",
+    "C04_density_nonneg_peaks_on_axis",
+    "C04_flux_clamped_partial",
+    "C04_settings_valid_over_all_histories",
+    "C04_code_facts_are_the_model",
+    "C04_direction_model_is_real_field",
 ]
 
-CODES = {0: "agree", 100: "ambiguous", 9: "constants", 1: "number of axis nodes", 2: "stopping-rate arguments",
+CODES = {7: "source density", 8: "SingleRayAttenuator.density called directly", 0: "agree", 100: "ambiguous", 9: "constants", 1: "number of axis nodes", 2: "stopping-rate arguments",
          3: "stopping coefficient values", 5: "oracle table miss / negative line density", 4: "density", 6: "direction"}
 
 
@@ -87,13 +96,14 @@ def case_parts(case, out):
     dens = "[" + "; ".join("(%s, %s, %s, %s)" % tuple(qlit(v) for v in p) for p in out["dens"]) + "]"
     dirs = "[" + "; ".join("(%s, %s, %s, (%s, %s, %s))" % tuple(qlit(v) for v in p) for p in out["dirs"]) + "]"
     return {"stubs": stubs, "cfg": cfg, "amu": qlit(k["amu"]), "stab": stab, "etab": etab, "n": zlit(out["n_nodes"]),
-            "args": args, "coef": coef, "dens": dens, "dirs": dirs}
+            "args": args, "coef": coef, "dens": dens, "dirs": dirs, "src": qlit(out["src"]),
+            "adens": "[" + "; ".join("(%s, %s, %s, %s)" % tuple(qlit(v) for v in p) for p in out["adens"]) + "]"}
 
 
 def case_txt(case, out):
     p = case_parts(case, out)
-    return "check_case\n   %s\n   %s %s\n   %s\n   %s\n   %s %s\n   %s\n   %s\n   %s" % (
-        p["stubs"], p["cfg"], p["amu"], p["stab"], p["etab"], p["n"], p["args"], p["coef"], p["dens"], p["dirs"])
+    return "check_case\n   %s\n   %s %s\n   %s\n   %s\n   %s %s %s\n   %s\n   %s\n   %s\n   %s" % (
+        p["stubs"], p["cfg"], p["amu"], p["stab"], p["etab"], p["n"], p["src"], p["args"], p["coef"], p["adens"], p["dens"], p["dirs"])
 
 
 # ---------------------------------------------------------------------------------------------
@@ -101,9 +111,9 @@ def run(ctx):
     ctx.trusted += [
         "Coq 8.16.1 kernel, vm_compute (no native_compute)",
         "Coq standard-library real-number axioms (ClassicalDedekindReals.sig_forall_dec, sig_not_dec, "
-        "functional_extensionality_dep, classic) under C04_streamline_invariant / C04_streamline_constant only (Coquelicot); every other theorem is "
+        "functional_extensionality_dep, classic) under C04_streamline_invariant / C04_streamline_constant / C04_direction_model_is_real_field only (Coquelicot, Coq.Reals); every other theorem is "
         "closed under the global context",
-        "harness/c04.py + c04_impl.py: scene builder, stub species/rates (uniform, linear, step profiles; constant/affine rates), "
+        "harness/c04_translate.py (fail-closed regex translator of node.pyx / singleray.pyx, 90 lines); harness/c04.py + c04_impl.py: scene builder, stub species/rates (uniform, linear, step profiles; constant/affine rates), "
         "Q literal printer, comparator Model/C04_Check.v",
         "libm exp/tan/sqrt, numpy linspace/exp, scipy cumulative_trapezoid, raysect Interpolator1DArray, AffineMatrix3D and "
         "Node.to() (beam-to-plasma matrix is read from raysect), IEEE double rounding: compared under 2^-40 (arguments, "
@@ -118,14 +128,48 @@ def run(ctx):
         "with clamp_to_zero the cross-section integral loses the documented tail exp(-clamp_sigma^2/2); the search accounts for it",
     ]
     ctx.rebuild()
-    ctx.proofs("Properties.C04", THEOREMS, extra_modules=("Model.C04_Check",))
+    ctx.proofs("Properties.C04", THEOREMS, extra_modules=("Model.C04_Check", "Model.C04_Policy"))
 
     import cherab
     from common import REPO
     assert list(cherab.__path__) == [REPO + "/cherab"], cherab.__path__
 
+    from common import coqc
+    import c04_translate as tr
+    # ---- (T) code facts regenerated from the current source, tied to the model by a kernel-checked lemma ----
+    try:
+        facts = tr.facts(REPO)
+        ok, o = coqc(ctx.write_gen("Source.v", tr.coq_text(facts)), timeout=300)
+        ctx.obligation("source_tie: setter guards, constructor guards, defaults, node-count formula, zero-set / axis / clamp "
+                       "comparisons, Gaussian constants and extrapolation range read from node.pyx + singleray.pyx equal the "
+                       "model's (coq/Gen/C04/Source.v)", "tie", ok, o)
+    except tr.TranslateError as e:
+        ctx.obligation("source_tie: translator of node.pyx + singleray.pyx (fail-closed)", "tie", False, str(e))
+
     rng = ctx.rng
-    n_cases = 40 if ctx.quick else 400
+    # ---- setter histories on live objects vs the state machine of Model/C04_Policy.v (evaluated by Coq) ----
+    n_sets = 12 if ctx.quick else 60
+    set_hist = [impl.gen_sets(rng, rng.choice([1, 2, 5, 20, 40])) for _ in range(n_sets)]
+    items = []
+    bools = lambda bs: "[" + "; ".join("true" if b else "false" for b in bs) + "]"
+    for ops in set_hist:
+        oks, finals = impl.run_sets(ops)
+        items.append("check_sets [%s] %s [%s]" % ("; ".join("(%s, %s)" % (o_["field"], qlit(o_["value"])) for o_ in ops), bools(oks),
+                                                   "; ".join("(%s, %s)" % (f, qlit(v)) for f, v in finals)))
+    ok, o = coqc(ctx.write_gen("sets_000.v", "Require Import Cherab.Common.Qx Cherab.Model.C04_Beam Cherab.Model.C04_Policy "
+                               "Cherab.Model.C04_Check.\nOpen Scope Q_scope.\nEval vm_compute in (failing [\n  "
+                               + ";\n  ".join(items) + "]).\n"), timeout=600)
+    vals = parse_evals(o) if ok else []
+    bad_sets = parse_zlist(vals[0]) if ok and len(vals) == 1 else [-1]
+    ctx.obligation("setter histories: which of %d setter calls raise ValueError (exactly) and the getters afterwards, %d histories "
+                   "on live Beam / SingleRayAttenuator objects vs run_sets" % (sum(len(h) for h in set_hist), n_sets),
+                   "correspondence", ok and not bad_sets, o if not ok else "DIFF at histories %s" % bad_sets)
+    for i in [b for b in bad_sets if b >= 0][:1]:
+        oks, finals = impl.run_sets(set_hist[i])
+        ctx.violation("c04-setters", "a setter of Beam / SingleRayAttenuator accepts or rejects a value against the documented guard, "
+                      "or a getter does not return what was set", {"ops": set_hist[i], "raised": [not k for k in oks],
+                                                                     "getters": finals}, found=True)
+    n_cases = 36 if ctx.quick else 400
     cases = impl.corpus_cases() + [impl.gen_case(rng, i) for i in range(n_cases)]
     if ctx.replay:
         # re-run the single configuration stored in a replay file (correspondence + thorough search)
@@ -142,6 +186,12 @@ def run(ctx):
         outs.append(out)
         if out["keys"] != out["keys_expected"]:
             key_fail.append({"case": case, "requested": out["keys"], "expected": out["keys_expected"]})
+    inter_fail = [{"case": c, "intermediates": o["intermediates"]} for c, o in zip(cases, outs) if not o["intermediates_ok"]]
+    ctx.obligation("attenuator intermediates (_tanxdiv, _tanydiv = libm tan of the divergences, _step, _clamp_sigma_sqr) (%d cases)"
+                   % len(cases), "correspondence", not inter_fail, str(inter_fail[:1]))
+    for kf in inter_fail[:1]:
+        ctx.violation("c04-intermediates", "a value cached by the attenuator (tan of a divergence, step, clamp_sigma^2) is not the one "
+                      "of the beam / attenuator settings", kf, found=True)
     ctx.obligation("stopping-rate lookups: (beam element, species element, charge) per species, in composition order "
                    "(%d cases)" % len(cases), "correspondence", not key_fail, str(key_fail[:2]))
 
@@ -253,7 +303,15 @@ def run(ctx):
                       "exp table key": "2^-46 (1+|x|)", "ambiguity margin": "2^-30 (clamp radius, step profile), 2^-40 (node count)",
                       "search": "flux 1e-7 + discretisation allowance; monotone 1e-12; streamline 1e-7; live vs fresh object and "
                                 "construction routes: bit-identical; species order 1e-10 (+1e-15 of the on-axis maximum)"},
-        "partial": ["C04_flux_partial / C04_flux_no_stopping_partial: the cross-section integral is an abstract functional with "
+        "compared": ["source facts = model facts (kernel, exact)", "setter outcomes ValueError/ok (exact) and getters (2^-52)",
+                     "lookup keys (exact)", "node count (exact)", "rate arguments and coefficients per node (2^-40)",
+                     "attenuator._source_density (2^-40)", "_tanxdiv/_tanydiv/_step (exact), _clamp_sigma_sqr (1 ulp)",
+                     "attenuator.density direct: ValueError domain (exact), values (2^-36 + interpolation allowance)",
+                     "Beam.density zero-set (exact), values (2^-36 + interpolation allowance)", "Beam.direction (2^-45 unit, 2^-40 parallel)",
+                     "live vs fresh object after every mutation (bit-identical)"],
+        "partial": ["C04_flux_clamped_partial: same integral laws without the Gaussian normalisation; the value of the cut-off Gaussian "
+                    "integral, 1 - exp(-clamp_sigma^2/2), is a hypothesis of its second conjunct",
+                    "C04_flux_partial / C04_flux_no_stopping_partial: the cross-section integral is an abstract functional with "
                     "the change-of-variables law and the Gaussian normalisation as hypotheses (analytic facts not proved)",
                     "C04_streamline_invariant / C04_streamline_constant are stated over R for the direction formula transcribed from the model "
                     "(C04_streamline_algebraic is the same fact over the model in Q)",
